@@ -11,6 +11,11 @@ import PyAbel.Model.Dispatch
 import PyAbel.Model.Dasch
 import PyAbel.Model.Cache
 import PyAbel.Model.Npy
+import PyAbel.Model.Origin
+import PyAbel.Model.Polar
+import PyAbel.Model.Distributions
+import PyAbel.Model.Representations
+import PyAbel.Model.RbasexImage
 open PyAbel PyAbel.Proto
 
 def axOfNat : Nat → Option SymAxis
@@ -162,6 +167,103 @@ def handle (toks : List String) : String :=
       if !admissible ax m then "raise" else
       showImg (transformQuadrants stubT (Img.ofArray r c 0.0 xs) ax m)
     | _, _, _, _, _, _, _, _ => "bad-op"
+  -- distr h w row col rmaxspec odd N linear useSin hasW <im…> [<weights…>]
+  --   → rmax+1 rows of N coefficients (Distributions(...).image(IM).cos() transposed), preceded by the geometry
+  | "distr" :: h :: w :: row :: col :: spec :: odd :: nn :: lin :: usin :: hasw :: rest =>
+    let specOf : String → Option Distr.RmaxSpec := fun s =>
+      match s with
+      | "hor" => some .hor | "ver" => some .ver | "HOR" => some .HOR | "VER" => some .VER | "min" => some .min
+      | "max" => some .max | "MIN" => some .MIN | "MAX" => some .MAX | "all" => some .all
+      | _ => s.toNat?.map .int
+    match h.toNat?, w.toNat?, row.toNat?, col.toNat?, specOf spec, parseBool odd, nn.toNat?, parseBool lin,
+          parseBool usin, parseBool hasw, parseFloats rest with
+    | some h, some w, some row, some col, some spec, some odd, some nn, some lin, some usin, some hasw, some xs =>
+      if xs.size ≠ (if hasw then 2 else 1) * h * w || nn = 0 || nn > 3 then "bad-op" else
+      let im := Img.ofArray h w 0.0 (xs.extract 0 (h * w))
+      let wt := Img.ofArray h w 0.0 (xs.extract (h * w) (2 * h * w))
+      let g := Distr.geometry h w row col spec odd
+      let res := Distr.analyse g ⟨nn, lin, usin⟩ im wt hasw
+      let cond := (List.range (g.rmax + 1)).map fun b => Distr.binCondition nn (Distr.binContribs g ⟨nn, lin, usin⟩ im wt hasw b)
+      s!"ok {g.rmax + 1} {nn} " ++ showFloats res.flatten ++ s!" | {g.qheight} {g.qwidth} {g.y0} | " ++ showFloats cond
+    | _, _, _, _, _, _, _, _, _, _, _ => "bad-op"
+  -- rbimg out h w row col rmaxspec odd N <c: N rows of rmax+1 values>  →  the `out` image synthesised from c
+  | "rbimg" :: out :: h :: w :: row :: col :: spec :: odd :: nn :: rest =>
+    let specOf : String → Option Distr.RmaxSpec := fun s =>
+      match s with
+      | "hor" => some .hor | "ver" => some .ver | "HOR" => some .HOR | "VER" => some .VER | "min" => some .min
+      | "max" => some .max | "MIN" => some .MIN | "MAX" => some .MAX | "all" => some .all
+      | _ => s.toNat?.map .int
+    let outOf : String → Option Rbasex.Out := fun s =>
+      match s with
+      | "same" => some .same | "full" => some .full | "full-unique" => some .fullUnique | "fold" => some .fold
+      | "unfold" => some .unfold | _ => none
+    match outOf out, h.toNat?, w.toNat?, row.toNat?, col.toNat?, specOf spec, parseBool odd, nn.toNat?, parseFloats rest with
+    | some out, some h, some w, some row, some col, some spec, some odd, some nn, some xs =>
+      let g := Distr.geometry h w row col spec odd
+      if xs.size ≠ nn * (g.rmax + 1) then s!"bad-op size {xs.size} {nn} {g.rmax}" else
+      let c := fun n k => xs.getD (n * (g.rmax + 1) + k) 0.0
+      let f := Rbasex.frame out h w g
+      showImg ⟨f.rows, f.cols, fun i j => Rbasex.outPx g.rmax nn odd c f i j⟩
+    | _, _, _, _, _, _, _, _, _ => "bad-op"
+  -- cossin N → N×N integers ;  harm odd terms → terms×terms (exact rationals printed as num/den)
+  | ["cossin", n] =>
+    match n.toNat? with
+    | some n => s!"ok {n} {n} " ++ " ".intercalate ((List.range n).flatMap fun i => (List.range n).map fun j => toString (Repr.cossinMatrix n i j))
+    | none => "bad-op"
+  | ["harm", odd, t] =>
+    match parseBool odd, t.toNat? with
+    | some odd, some t =>
+      s!"ok {t} {t} " ++ " ".intercalate ((Repr.harmonicsMatrix odd t).flatten.map fun q => s!"{q.num}/{q.den}")
+    | _, _ => "bad-op"
+  -- c2p x y → r θ ;  p2c r θ → x y
+  | ["c2p", x, y] =>
+    match parseFloat x, parseFloat y with
+    | some x, some y => let p := cart2polar x y; s!"ok 1 2 " ++ showFloats [p.1, p.2]
+    | _, _ => "bad-op"
+  | ["p2c", r, t] =>
+    match parseFloat r, parseFloat t with
+    | some r, some t => let p := polar2cart r t; s!"ok 1 2 " ++ showFloats [p.1, p.2]
+    | _, _ => "bad-op"
+  -- idx rows cols orow ocol row col → x y (integers)
+  | ["idx", rows, cols, orow, ocol, row, col] =>
+    match rows.toNat?, cols.toNat?, orow.toInt?, ocol.toInt?, row.toNat?, col.toNat? with
+    | some rows, some cols, some orow, some ocol, some row, some col =>
+      let p := indexCoords rows cols orow ocol row col; s!"ok {p.1} {p.2}"
+    | _, _, _, _, _, _ => "bad-op"
+  -- radint kind nt R dt <T (nt)> <P row (nt)> → one radial bin of radial_intensity
+  | "radint" :: kind :: nt :: R :: dt :: rest =>
+    match kind.toNat?, nt.toNat?, parseFloat R, parseFloat dt, parseFloats rest with
+    | some kind, some nt, some R, some dt, some xs =>
+      if xs.size ≠ 2 * nt || kind > 3 then "bad-op" else
+      let k : Kind := match kind with | 0 => .int2D | 1 => .int3D | 2 => .avg2D | _ => .avg3D
+      s!"ok 1 1 " ++ showFloats [radialIntensity k nt (fun _ l => xs.getD (nt + l) 0.0) (fun _ => R) (fun l => xs.getD l 0.0) dt 0]
+    | _, _, _, _, _ => "bad-op"
+  -- topes n c <radial (n)> <intensity (n)> → E (n) then PES (n), unsorted
+  | "topes" :: n :: c :: rest =>
+    match n.toNat?, parseFloat c, parseFloats rest with
+    | some n, some c, some xs =>
+      if xs.size ≠ 2 * n then "bad-op" else
+      let out := (List.range n).map fun k => toPES (fun i => xs.getD i 0.0) (fun i => xs.getD (n + i) 0.0) c k
+      s!"ok 2 {n} " ++ showFloats (out.map (·.1) ++ out.map (·.2))
+    | _, _, _ => "bad-op"
+  -- com rows cols <pixels…>  →  centre of mass (row, col) of the image, via the two projections
+  | "com" :: r :: c :: rest =>
+    match r.toNat?, c.toNat?, parseFloats rest with
+    | some r, some c, some xs =>
+      if xs.size ≠ r * c then "bad-op" else
+      let im := Img.ofArray r c 0.0 xs
+      s!"ok 1 2 " ++ showFloats [com1 r (projRows im), com1 c (projCols im)]
+    | _, _, _ => "bad-op"
+  -- conv n <p…>  →  first argmax of the autoconvolution (as an integer, = 2 × origin), then its values
+  | "conv" :: n :: rest =>
+    match n.toNat?, parseFloats rest with
+    | some n, some xs =>
+      if xs.size ≠ n || n = 0 then "bad-op" else
+      let p := fun i => xs.getD i 0.0
+      let vals := (List.range (2 * n - 1)).map (autoconv n p)
+      let va := vals.toArray
+      s!"ok {argmaxFirst (2 * n - 1) (fun k => va.getD k 0.0)} " ++ showFloats vals
+    | _, _ => "bad-op"
   -- npy <hex bytes>   →  verdict of the .npy decoder on a byte string
   | ["npy", hex] =>
     let cs := hex.toList
